@@ -20,6 +20,7 @@ whole order), then the first iterator continued.  The live histories, the TLC-si
 and the random drivers interleave such iterators; every iterator's yields must follow the order of
 the (seed, epoch) it was created for."""
 import copy
+import os
 import sys
 
 from ..harness import MachineryError, main
@@ -335,6 +336,48 @@ def selftest(ctx, traces, lives):
 
 
 # ----------------------------------------------------------------------------- entry points
+def unbounded_share_lemma(ctx):
+    """TLC samples data-set sizes up to 8; the per-rank share formula (i - r + W - 1) div W -- AbstractEpochSampler.__len__
+    -- is an inductive invariant of the round-robin deal for EVERY size (specs/SamplerInd.tla, Apalache, symbolic position
+    counter): base case, inductive step, and the consequences (disjoint cover, equal shares when W divides the size,
+    otherwise shares differing by at most one in favour of the low ranks).  A copy with an off-by-one formula must be
+    refuted (non-vacuity)."""
+    import shutil
+    from concurrent.futures import ThreadPoolExecutor
+
+    from .. import SPECS, apalache
+
+    ws = (3,) if ctx.quick else (1, 2, 3, 4)
+    jobs = []
+    for w in ws:
+        mod = os.path.join(SPECS, "SamplerInd_W%d.tla" % w)
+        jobs += [(w, "base", mod, dict(init="Init", inv="IndInv", length=0)),
+                 (w, "step", mod, dict(init="IndInit", inv="IndInv", length=1)),
+                 (w, "consequences", mod, dict(init="IndInit", inv="Consequences", length=0))]
+    bad_dir = ctx.subdir("samplerind_bad")
+    with open(os.path.join(SPECS, "SamplerInd.tla")) as f:
+        txt = f.read()
+    good = "LenFormula(n, r) == (n - r + W - 1) \\div W"
+    if good not in txt:
+        raise MachineryError("SamplerInd.tla: formula line not found")
+    with open(os.path.join(bad_dir, "SamplerInd.tla"), "w") as f:
+        f.write(txt.replace(good, "LenFormula(n, r) == (n - r + W) \\div W"))
+    shutil.copy(os.path.join(SPECS, "SamplerInd_W3.tla"), bad_dir)
+    jobs.append((3, "off_by_one_must_fail", os.path.join(bad_dir, "SamplerInd_W3.tla"), dict(init="IndInit", inv="IndInv", length=1)))
+    with ThreadPoolExecutor(max_workers=4) as pool:
+        results = list(pool.map(lambda j: apalache.check(j[2], **j[3]), jobs))
+    for (w, what, _, _), res in zip(jobs, results):
+        d = res.as_dict()
+        d["name"] = "SamplerInd W=%d %s" % (w, what)
+        ctx.tlc_runs.append(d)
+        if what == "off_by_one_must_fail":
+            if res.ok:
+                raise MachineryError("Apalache accepted an off-by-one share formula: the inductive check is vacuous")
+        elif not res.ok:
+            raise MachineryError("Apalache refutes the share lemma (W=%d, %s):\n%s" % (w, what, res.tail))
+    ctx.count("apalache_inductive_obligations_discharged", len(jobs) - 1)
+
+
 def run(ctx):
     ctx.rule = ("spec->code: every case (N<=8, W<=4, mode) x {random, sequential} of the exported outcome "
                 "table on real objects, every rank; code->spec: canonical histories for every case, live "
@@ -352,6 +395,7 @@ def run(ctx):
         "re-constructed while one of its iterators is alive",
     ]
     cases = S.run_design(ctx)
+    unbounded_share_lemma(ctx)
     table = dict(((c["N"], c["W"], c["mode"]), c) for c in cases if c["kind"] == "seq")
     ctx.exhaustive = True
     # --- spec -> code
